@@ -507,6 +507,10 @@ def run_c07(scn) -> Result:
     tree = scn["tree"]
     os.makedirs(SCRATCH, exist_ok=True)
     trees = {"T0": tree, **scn.get("trees", {})}
+    from .. import seams
+
+    env = seams.Env(ids=seams.SimId())
+    env.install()
     try:
         style = lambda: random.Random(scn["style_seed"])  # noqa: E731
         try:
@@ -683,12 +687,17 @@ def run_c07(scn) -> Result:
                         detail["children_order"] = list(gnode.children)
                     res.violate("C07.agree", step, op=do, route=route, vector=vkind, expected=want, got=gl, writes_before=writes, **detail)
         res.nontrivial = reads_after_write > 0
+        res.count("id_calls", env.ids.calls)
+        if env.ids.reused:
+            res.count("fault:identity_reused", env.ids.reused)
         res.mark("interleavings", digest([(o["actor"], o["do"][0]) for o in scn["ops"]]))
         res.count("executions")
         res.events = H.events
         res.digest = H.digest()
         return res
     finally:
+        systems = None
+        seams.Env.uninstall()
         shutil.rmtree(SCRATCH, ignore_errors=True)
 
 
